@@ -46,7 +46,9 @@ var cfgHeaderNames = []string{"X-Test", "Accept", "User-Agent", "Cookie", "X-Cfg
 
 func genCase(t *rapid.T) Case {
 	format := rapid.SampledFrom([]string{"uri", "uripost", "raw", "jsonline"}).Draw(t, "format")
-	c := Case{File: ag.Gen(t, format, ag.GenOpts{MinEntries: 1, MaxEntries: 6, AllowBig: true})}
+	c := Case{File: ag.Gen(t, format, ag.GenOpts{MinEntries: 1, MaxEntries: 6, AllowBig: true, RawTail: true})}
+	// (RawTail: in one raw file in two, entries whose size line also counts a line break written after the request - the
+	// request that must arrive is still the header block and the Content-Length bytes that follow it)
 	// configured headers: unique names; prefer names the file also defines
 	var fileNames []string
 	for _, w := range c.File.Expected() {
@@ -388,6 +390,32 @@ func check(c Case, o *vf.Obs) error {
 	}
 	o.Class("format_" + c.File.Format)
 	o.ClassIf(c.File.Big, "file_larger_than_reader_buffer")
+	// raw entries whose sized block goes on after the request text
+	tailBody, tailNoBody, tailAndExact, tailBig := false, false, false, false
+	if c.File.Format == "raw" {
+		exactBody := false
+		for i, it := range c.File.Items {
+			if it.Entry == nil {
+				continue
+			}
+			tail := c.File.Layout.RawTailOf(i)
+			switch {
+			case tail != "" && len(it.Entry.Body) > 0:
+				tailBody = true
+				tailBig = tailBig || len(it.Entry.Body) > 4096
+			case tail != "":
+				tailNoBody = true
+			case len(it.Entry.Body) > 0:
+				exactBody = true
+			}
+		}
+		tailAndExact = tailBody && exactBody
+	}
+	o.ClassIf(tailBody, "raw_sized_block_extends_past_body")
+	o.ClassIf(tailNoBody, "raw_sized_block_extends_past_bodiless_request")
+	o.ClassIf(tailAndExact, "raw_file_mixes_exact_and_extended_blocks_with_body")
+	o.ClassIf(tailBody && c.Passes > 1, "raw_sized_block_extends_past_body_two_passes")
+	o.ClassIf(tailBig, "raw_sized_block_extends_past_body_gt_4k")
 	o.Class("answer_" + c.Answer)
 	o.ClassIf(c.Connect, "connect_gun")
 	o.ClassIf(c.HTTP2, "http2_gun")
